@@ -17,9 +17,11 @@
 (***************************************************************************)
 EXTENDS Integers, Sequences, FiniteSets, TLC
 
-CONSTANTS FixPctCase,    \* TRUE: uppercase_percent_encoding matches %[0-9a-fA-F]{2}  (finding 7 repaired)
+CONSTANTS FixUrlEager,   \* TRUE: parse() builds .url itself, so un-encodable user info is a ValueError of parse()
+          FixPctCase,    \* TRUE: uppercase_percent_encoding matches %[0-9a-fA-F]{2}  (finding 7 repaired)
           FixIdnaFirst,  \* TRUE: host is IDNA-mapped/lower-cased before the IPv4 forms are tried (finding 8 repaired)
-          FixUserPct     \* TRUE: '%' is in the userinfo encode sets (userinfo re-encoding repaired)
+          FixUserPct     \* TRUE: '%' is in the userinfo encode sets and userinfo is re-encoded with the
+                         \*       document encoding (userinfo re-encoding repaired)
 
 -----------------------------------------------------------------------------
 (* 1. text helpers                                                          *)
@@ -426,13 +428,14 @@ NormRel(url, scheme, rem0, enc) ==
         password == Unquote(pu[3], enc)
         port == IF ph.port = 0 THEN DefaultPort(scheme) ELSE ph.port
         v6   == StartsWith(host, <<LBR>>)
-        \* the .url property (normalize_username / normalize_password always use utf-8)
-        eu   == PctEncode(username, UsernameSet, "utf-8")
-        ep   == PctEncode(password, PasswordSet, "utf-8")
+        \* the .url property (normalize_username / normalize_password always use utf-8 in the code as it is)
+        uenc == IF FixUserPct THEN enc ELSE "utf-8"
+        eu   == PctEncode(username, UsernameSet, uenc)
+        ep   == PctEncode(password, PasswordSet, uenc)
     IN
     IF (Len(username) > 0 /\ ~eu.ok) \/ (Len(password) > 0 /\ ~ep.ok) THEN
          \* parse() returned, but reading .url raises UnicodeEncodeError: seen by callers as a ValueError from normalize()
-         [oc |-> "urlerror"]
+         (IF FixUrlEager THEN VErr ELSE [oc |-> "urlerror"])
     ELSE
      [oc |-> "value", net |-> TRUE, scheme |-> scheme, hostname |-> ph.hostname, port |-> port,
       path |-> np.v, query |-> nq.v, fragment |-> nf.v, username |-> username, password |-> password, v6 |-> v6,
